@@ -3,6 +3,8 @@ use std::fmt::Write;
 pub struct EmmyLuaEmitter {
     output: String,
     write_file: bool,
+    /// An `---@alias` header was written and no variant has followed yet.
+    alias_needs_variant: bool,
 }
 
 impl EmmyLuaEmitter {
@@ -10,6 +12,7 @@ impl EmmyLuaEmitter {
         Self {
             output: String::new(),
             write_file,
+            alias_needs_variant: false,
         }
     }
 
@@ -81,6 +84,15 @@ impl EmmyLuaEmitter {
             if self.write_file { "(file)" } else { "" },
             name
         );
+        self.alias_needs_variant = true;
+    }
+
+    /// Close the current alias. An alias without any variant is not valid,
+    /// so one that received none (e.g. an empty `enum`) becomes `any`.
+    pub fn finish_alias(&mut self) {
+        if self.alias_needs_variant {
+            self.write_alias_type_variant("any", None);
+        }
     }
 
     /// Write `---| "value" # description`.
@@ -90,6 +102,7 @@ impl EmmyLuaEmitter {
 
     /// Write `---| type # description` (for non-string union members).
     pub fn write_alias_type_variant(&mut self, ty: &str, description: Option<&str>) {
+        self.alias_needs_variant = false;
         match description {
             Some(desc) => {
                 let _ = writeln!(self.output, "---| {} # {}", ty, desc);
